@@ -17,7 +17,8 @@ def main():
     mod = runner.monitor_module(prop)
     rep = report.Report(prop, spec)
     mod.run_shard(spec, rep)
-    rep.counters.update({"budget:" + k: v for k, v in guards.budget_stats().items()})
+    for k, v in guards.budget_stats().items():
+        rep.counters[("max:budget:" if k.startswith("max_") else "budget:") + k] = v
     with open(out_path, "w") as fh:
         json.dump(rep.to_json(), fh)
 
